@@ -149,3 +149,113 @@ package objecttree
 //@   ensures [err_implies_not_committed] err != nil ==> !txCommitted
 //@   ensures [err_keeps_uncreated]       err != nil ==> s.storage == nil
 //@   ensures [closed]                    txOpened ==> txCommitCalled || txRolledBack
+
+// ---------------------------------------------------------------------------------------------
+// C02: only authentic, authorised changes.  The decoder gate (Unmarshall with verify) and the
+// per-change authorisation gate (validateChange).  Hashing, signature verification and key decoding
+// are uninterpreted leaves (catalog crypto.gospec); the generated protobuf decoders are assumed to
+// write only into the message they are called on.
+//@ ghost umRawSrc Slice stable
+//@ ghost umRawDst Ptr stable
+//@ func (*github.com/anyproto/any-sync/commonspace/object/tree/treechangeproto.RawTreeChange).UnmarshalVT
+//@   modifies fields treechangeproto.RawTreeChange.Payload treechangeproto.RawTreeChange.Signature treechangeproto.RawTreeChange.unknownFields
+//@   modifies kinds uint8
+//@   sets umRawSrc = arg1
+//@   sets umRawDst = arg0
+//@ func (*github.com/anyproto/any-sync/commonspace/object/tree/treechangeproto.RootChange).UnmarshalVT
+//@   modifies younger arg0
+//@ func (*github.com/anyproto/any-sync/commonspace/object/tree/treechangeproto.TreeChange).UnmarshalVT
+//@   modifies younger arg0
+//@ func (*github.com/anyproto/any-sync/commonspace/object/tree/treechangeproto.NoDataTreeChange).UnmarshalVT
+//@   modifies younger arg0
+//@ func (*github.com/anyproto/any-sync/commonspace/object/tree/treechangeproto.TreeChangeInfo).MarshalVT
+//@   modifies nothing
+//@ func (*github.com/anyproto/any-sync/commonspace/object/tree/treechangeproto.RawTreeChangeWithId).GetRawChange
+//@   pure
+//@   ensures arg0 != nil ==> result == arg0.RawChange
+//@ package github.com/anyproto/any-sync/commonspace/object/tree/objecttree
+
+//@ func (*changeBuilder).isRoot
+//@   modifies nothing
+//@   requires c != nil
+//@   ensures result <==> (c.rootChange != nil && c.rootChange.Id == id)
+//@ func NewChangeFromRoot
+//@   modifies nothing
+//@   requires ch != nil
+//@   ensures result != nil && result.Id == id && result.Identity == identity && result.Signature == signature && result.IsDerived == isDerived && result.AclHeadId == ch.AclHeadId && fresh(result)
+
+// the decoded change carries the id it was delivered under, the signature of the envelope and the
+// key decoded from the identity bytes inside the signed payload; only a root may be derived (unsigned)
+//@ func (*changeBuilder).unmarshallRawChange
+//@   requires c != nil && raw != nil && c.keys != nil
+//@   modifies nothing
+//@   ensures [id_is_delivered_id]   err == nil ==> ch != nil && ch.Id == id && ch.Signature == raw.Signature
+//@   ensures [only_root_derived]    err == nil && ch.IsDerived ==> c.rootChange != nil && c.rootChange.Id == id
+//@   ensures [signed_has_identity]  err == nil && !ch.IsDerived ==> ch.Identity != nil
+//@   ensures [fresh_change]         err == nil ==> fresh(ch)
+
+// with verify: success implies the id is the content hash of exactly the delivered bytes, and (unless
+// it is the derived root) the named identity signed exactly the payload decoded from those bytes
+//@ func (*changeBuilder).Unmarshall
+//@   requires c != nil && rawIdChange != nil && c.keys != nil && c.rawTreeCh != nil
+//@   ensures [cid_verified]       err == nil && verify ==> cidOK(rawIdChange.RawChange, rawIdChange.Id)
+//@   ensures [id_is_verified_id]  err == nil ==> ch != nil && ch.Id == rawIdChange.Id
+//@   ensures [decoded_from_delivered_bytes] err == nil ==> umRawSrc == rawIdChange.RawChange && umRawDst == c.rawTreeCh
+//@   ensures [signature_verified] err == nil && verify && !ch.IsDerived ==> sigOK(ch.Identity, bytestr(c.rawTreeCh.Payload), c.rawTreeCh.Signature)
+//@   ensures [unsigned_only_derived_root] err == nil && ch.IsDerived ==> c.rootChange != nil && c.rootChange.Id == rawIdChange.Id
+
+// authorisation of one change: unless it is the derived root, its author held write permission at
+// the ACL record the change cites (which must exist locally), and that record is not older than the
+// record cited by any parent
+//@ uf permAt(Ptr, Str, Iface) Int
+//@ uf permErr(Ptr, Str, Iface) Iface
+//@ package github.com/anyproto/any-sync/commonspace/object/acl/list
+//@ func (*AclState).PermissionsAtRecord
+//@   modifies nothing
+//@   posits [deterministic] result0 == permAt(st, id, pubKey) && result1 == permErr(st, id, pubKey)
+//@ func (AclPermissions).CanWrite
+//@   modifies nothing
+//@   ensures result <==> (p == 1 || p == 2 || p == 3)
+//@ func (*AclState).Keys
+//@   modifies nothing
+//@ func iface list.AclList.AclState
+//@   pure
+//@ func iface list.AclList.IsAfter
+//@   pure
+//@ package github.com/anyproto/any-sync/commonspace/object/tree/objecttree
+//@ func (*Tree).RootId
+//@   pure
+//@ func field objectTreeValidator.contentValidator
+//@   modifies nothing
+//@ func (*objectTreeValidator).validateChange
+//@   requires v != nil && tree != nil && aclList != nil && c != nil
+//@   assumes aclList.AclState() != nil
+//@   assumes forall k int :: 0 <= k && k < len(c.PreviousIds) ==> (c.PreviousIds[k] in tree.attached) && tree.attached[c.PreviousIds[k]] != nil
+//@   modifies nothing
+//@   ensures [writer_at_cited_record] err == nil && !c.IsDerived ==> permErr(aclList.AclState(), c.AclHeadId, c.Identity) == nil && (permAt(aclList.AclState(), c.AclHeadId, c.Identity) == 1 || permAt(aclList.AclState(), c.AclHeadId, c.Identity) == 2 || permAt(aclList.AclState(), c.AclHeadId, c.Identity) == 3)
+//@   ensures [acl_head_not_older_than_parents] err == nil && !c.IsDerived && c.Id != tree.RootId() ==> (forall k int :: 0 <= k && k < len(c.PreviousIds) ==> tree.attached[c.PreviousIds[k]].AclHeadId == c.AclHeadId || tree.attached[c.PreviousIds[k]].IsDerived || (aclList.IsAfter(c.AclHeadId, tree.attached[c.PreviousIds[k]].AclHeadId) && aclList.IsAfter#1(c.AclHeadId, tree.attached[c.PreviousIds[k]].AclHeadId) == nil))
+//@   loop 0:
+//@     invariant -1 <= rangeindex && rangeindex < len(c.PreviousIds) && err == nil
+//@     invariant forall k int :: 0 <= k && k <= rangeindex ==> tree.attached[c.PreviousIds[k]].AclHeadId == c.AclHeadId || tree.attached[c.PreviousIds[k]].IsDerived || (aclList.IsAfter(c.AclHeadId, tree.attached[c.PreviousIds[k]].AclHeadId) && aclList.IsAfter#1(c.AclHeadId, tree.attached[c.PreviousIds[k]].AclHeadId) == nil)
+//@ func (*objectTreeValidator).ValidateNewChanges
+//@   requires v != nil && tree != nil && aclList != nil
+//@   assumes aclList.AclState() != nil
+//@   assumes forall i int :: 0 <= i && i < len(newChanges) ==> newChanges[i] != nil && (forall k int :: 0 <= k && k < len(newChanges[i].PreviousIds) ==> (newChanges[i].PreviousIds[k] in tree.attached) && tree.attached[newChanges[i].PreviousIds[k]] != nil)
+//@   modifies nothing
+//@   ensures [every_change_authorised] err == nil ==> (forall i int :: 0 <= i && i < len(newChanges) ==> newChanges[i].IsDerived || (permErr(aclList.AclState(), newChanges[i].AclHeadId, newChanges[i].Identity) == nil && (permAt(aclList.AclState(), newChanges[i].AclHeadId, newChanges[i].Identity) == 1 || permAt(aclList.AclState(), newChanges[i].AclHeadId, newChanges[i].Identity) == 2 || permAt(aclList.AclState(), newChanges[i].AclHeadId, newChanges[i].Identity) == 3)))
+//@   loop 0:
+//@     invariant -1 <= rangeindex && rangeindex < len(newChanges) && err == nil
+//@     invariant forall i int :: 0 <= i && i <= rangeindex ==> newChanges[i].IsDerived || (permErr(aclList.AclState(), newChanges[i].AclHeadId, newChanges[i].Identity) == nil && (permAt(aclList.AclState(), newChanges[i].AclHeadId, newChanges[i].Identity) == 1 || permAt(aclList.AclState(), newChanges[i].AclHeadId, newChanges[i].Identity) == 2 || permAt(aclList.AclState(), newChanges[i].AclHeadId, newChanges[i].Identity) == 3))
+
+// ingest: every raw change that is not already known to the tree goes through the verifying decoder
+// (verify == true on every call), before anything else looks at it
+//@ ghost umVerifyAll Bool stable
+//@ func iface objecttree.ChangeBuilder.Unmarshall
+//@   sets umVerifyAll = umVerifyAll && arg2
+//@   ensures result1 == nil ==> result0 != nil
+//@ func (*Tree).Heads
+//@   modifies nothing
+//@ func (*objectTree).addChangesToTree
+//@   requires umVerifyAll
+//@   loop 0:
+//@     invariant umVerifyAll
